@@ -22,6 +22,14 @@ What is and is not proven here:
   `Gen.DepGraph.guards`) is NOT proven in this file: it is about the einsum
   bodies and is proven / validated elsewhere; here it is the explicit
   hypothesis `TableCoh`.
+  EXTENSION ROUND: Props/C01Coherence.lean, C01CoherenceA.lean (algebraic) and
+  C01CoherenceC.lean (on solutions of Einstein's equations) prove one coherence
+  theorem per guard (all but Riemann-based vs E/B-based `st_Weyl_down4`);
+  Props/C01M.lean sharpens H2 (`get_transparent_sharp`: guards that cannot
+  change along a history need no coherence); Props/C01Sub.lean instantiates H2
+  for a 25-key sub-table of the real code, where `sub_transparent` has no
+  hypothesis about the bodies left.  The table guard -> class -> theorem is
+  generated on every run by tools/props/C01.py (evidence `coherence_table`).
 -/
 import AurelVerif.Lemmas.CacheGet
 import AurelVerif.Gen.DepGraph
